@@ -136,6 +136,28 @@ def clean_multipart_ext_case(pr):
     return None
 
 
+def shared_output_dir_case(pr):
+    """two targets (and two resources of one target) declare the same output directory with different filters; a
+    listed path that is a regular file not matching the filter"""
+    pr.write("src/a.txt", "a")
+    js = {"input": [{"paths": ["src"]}], "output": [{"paths": ["dist"], "extensions": ["js"]}], "build": logging_build("js", body="mkdir -p dist && echo 1 > dist/app.js")}
+    css = {"input": [{"paths": ["src"]}], "output": [{"paths": ["dist"], "extensions": ["css"]}], "build": logging_build("css", body="mkdir -p dist && echo 1 > dist/app.css")}
+    hdr = {"input": [{"paths": ["src"]}], "output": [{"paths": ["out"], "extensions": ["c"]}, {"paths": ["out"], "extensions": ["h"]}, {"paths": ["gen", "bundle.js", "bundle.manifest"], "extensions": ["js"]}],
+           "build": logging_build("hdr", body="mkdir -p out gen && echo 1 > out/x.c && echo 1 > out/x.h && echo 1 > gen/g.js && echo 1 > bundle.js && echo 1 > bundle.manifest")}
+    pr.write("zinoma.yml", yml({"js": js, "css": css, "hdr": hdr}))
+    pr.write("dist/readme.md", "hand-written")
+    if pr.run("js", "css", "hdr").rc != 0:
+        return None
+    r = pr.run("--clean")
+    for f in ("dist/app.js", "dist/app.css", "out/x.c", "out/x.h", "gen/g.js", "bundle.js"):
+        if pr.exists(f):
+            return {"property": "C12", "expected": "`--clean` removes every declared output: %s (several declarations share a path with different filters)" % f, "observed": "%s is still there" % f, "zinoma": r.brief()}
+    for f in ("dist/readme.md", "bundle.manifest", "src/a.txt"):
+        if not pr.exists(f):
+            return {"property": ["C12", "C15"], "expected": "`--clean` removes only files of the denoted sets: %s (no declared filter matches it) survives" % f, "observed": "%s was deleted" % f, "zinoma": r.brief()}
+    return None
+
+
 def no_clean_case(pr):
     _project(pr)
     if not _build_all(pr):
@@ -154,5 +176,6 @@ def cases(seed, tier="quick"):
         Case("clean", "clean-targets-deletes", clean_targets_deletes_case, "--clean gen: declared outputs are really gone before the re-run"),
         Case("clean", "clean-all", clean_all_case, "--clean alone: all outputs and state of all projects, nothing else, no script"),
         Case("clean", "clean-multipart-ext", clean_multipart_ext_case, "multi-part extension without its dot in a filtered output"),
+        Case("clean", "shared-output-dir", shared_output_dir_case, "shared output directory with different filters; listed regular files"),
         Case("clean", "no-clean", no_clean_case, "without --clean nothing is deleted"),
     ]
